@@ -39,7 +39,10 @@ RULE = (
     'call form (kwargs / hparams); for the federated variants the clients are '
     'inserted into InMemoryFederatedData in a generated permutation. Shuffle '
     'cases add buffer sizes 1..len+3 and three distinct RandomState seeds that '
-    'are fields of the case; mismatch cases put a foreign preprocessor object or '
+    'are fields of the case; shuffled_clients cases draw an implementation '
+    '(in-memory, SQLite, each also wrapped in SubsetFederatedData from an id list '
+    'with repeats or sliced), 1-16 clients, a buffer shorter than / equal to / '
+    'longer than the view, 1-3 passes and two seeds; mismatch cases put a foreign preprocessor object or '
     'feature set at a generated position >=1; RepeatableIterator cases draw a '
     'base kind (list/tuple/dict/str/bytes/range/generator/iterator/map, empty '
     'included) and 1-8 read operations (take j items / read to the end). '
@@ -990,6 +993,121 @@ def repeatable_labels(case):
   return ls
 
 
+# ------------------------------------------ FederatedData.shuffled_clients
+
+def build_shuffled_fd(case):
+  """(FederatedData, [client ids in the view], {id: size}, cleanup)."""
+  import os, shutil, tempfile
+  sizes = case['sizes']
+  ids = [b'c%03d' % j for j in range(len(sizes))]
+  mapping = {i: {'id': np.arange(j * 100 + 1, j * 100 + 1 + sz, dtype=np.int32)}
+             for j, (i, sz) in enumerate(zip(ids, sizes))}
+  impl = case['impl']
+  cleanup = lambda: None
+  if impl.startswith('sqlite'):
+    d = tempfile.mkdtemp(prefix='C15-', dir='/var/tmp')
+    path = os.path.join(d, 'fd.sqlite')
+    with fedjax.SQLiteFederatedDataBuilder(path) as builder:
+      builder.add_many(mapping.items())
+    fd = fedjax.SQLiteFederatedData.new(path)
+
+    def cleanup():  # pylint: disable=function-redefined
+      try:
+        fd._connection.close()  # pylint: disable=protected-access
+      except Exception:  # pylint: disable=broad-except
+        pass
+      shutil.rmtree(d, ignore_errors=True)
+  else:
+    fd = fedjax.InMemoryFederatedData(mapping)
+  view = list(ids)
+  if impl.endswith('subset'):
+    view = [ids[k] for k in sorted({k % len(ids) for k in case['keep']})] or list(ids)
+    # (an Iterable of ids; every other one is named twice)
+    fd = fedjax.SubsetFederatedData(fd, view[::-1] + view[::2])
+  elif impl.endswith('slice'):
+    lo = case['keep'][0] % len(ids)
+    view = ids[lo:]
+    fd = fd.slice(start=ids[lo])
+  return fd, view, {i: len(mapping[i]['id']) for i in view}, cleanup
+
+
+def run_shuffled_clients(case):
+  """Client-level buffered shuffling as every FederatedData exposes it: the
+  endless stream of shuffled_clients(buffer_size, seed), cut into consecutive
+  passes of len(view) items, visits every client of the view exactly once per
+  pass, with its own dataset, for every buffer size; a fixed seed reproduces the
+  stream; for larger views the order is not the sorted one in every pass."""
+  fd, view, size_of, cleanup = build_shuffled_fd(case)
+  try:
+    n, buf, passes = len(view), case['buffer_size'], case['passes']
+    streams = []
+    for seed in case['seeds'] + case['seeds'][:1]:
+      got = list(itertools.islice(fd.shuffled_clients(buffer_size=buf, seed=seed),
+                                  passes * n))
+      require(len(got) == passes * n, 'shuffled_clients:stream_ended',
+              f'{len(got)} items, asked for {passes * n}')
+      order = []
+      for cid, ds in got:
+        require(cid in size_of, 'shuffled_clients:unknown_client', f'{cid!r}')
+        require(len(ds) == size_of[cid] and
+                np.array_equal(ds.all_examples()['id'][:1],
+                               np.arange(int(cid[1:]) * 100 + 1, int(cid[1:]) * 100 + 2)[:size_of[cid]]),
+                'shuffled_clients:wrong_dataset', f'{cid!r}: {len(ds)} examples')
+        order.append(cid)
+      for q in range(passes):
+        block = order[q * n:(q + 1) * n]
+        require(sorted(block) == sorted(view), 'shuffled_clients:pass_not_a_permutation',
+                lambda: f'impl={case["impl"]} n={n} buffer={buf} seed={seed} pass {q}: '
+                        f'{[c.decode() for c in block]}')
+      streams.append(order)
+    require(streams[-1] == streams[0], 'shuffled_clients:not_reproducible',
+            f'seed {case["seeds"][0]}')
+    if n >= 12 and buf >= 2:
+      blocks = [o[q * n:(q + 1) * n] for o in streams for q in range(passes)]
+      require(any(b != sorted(view) for b in blocks), 'shuffled_clients:trivial_order',
+              f'n={n} buffer={buf}: sorted order in every pass for seeds {case["seeds"]}')
+  finally:
+    cleanup()
+
+
+@st.composite
+def shuffled_clients_case(draw, tier):
+  n = draw(st.sampled_from([1, 2, 3, 4, 5, 7, 12, 13, 16] if tier == 'quick'
+                           else [1, 2, 3, 4, 5, 7, 9, 12, 13, 16, 24]))
+  sizes = [draw(st.sampled_from([0, 1, 2, 3])) for _ in range(n)]
+  impl = draw(st.sampled_from(['mem', 'mem_subset', 'mem_subset', 'mem_slice',
+                               'sqlite', 'sqlite_subset', 'sqlite_slice']))
+  keep = draw(st.lists(st.integers(0, 30), min_size=1, max_size=n + 2))
+  nv = n
+  if impl.endswith('subset'):
+    nv = len({k % n for k in keep})
+  elif impl.endswith('slice'):
+    nv = n - keep[0] % n
+  return {'impl': impl, 'sizes': sizes, 'keep': keep,
+          'buffer_size': draw(st.one_of(st.integers(1, nv + 3),
+                                        st.sampled_from([1, 2, max(1, nv - 1), nv, nv + 1, nv + 3]))),
+          'passes': draw(st.sampled_from([1, 2, 2, 3])),
+          'seeds': draw(st.lists(st.integers(0, 2 ** 31 - 1), min_size=2, max_size=2,
+                                 unique=True))}
+
+
+def shuffled_clients_view_size(case):
+  n = len(case['sizes'])
+  if case['impl'].endswith('subset'):
+    return len({k % n for k in case['keep']})
+  if case['impl'].endswith('slice'):
+    return n - case['keep'][0] % n
+  return n
+
+
+def shuffled_clients_labels(case):
+  nv = shuffled_clients_view_size(case)
+  b = case['buffer_size']
+  return ['impl:' + case['impl'], 'passes:%d' % case['passes'],
+          'buffer<view' if b < nv else 'buffer=view' if b == nv else 'buffer>view',
+          'view:1' if nv == 1 else 'view:2-7' if nv < 12 else 'view:12+']
+
+
 CHECKS = [
     Check(name='padded_client_datasets', run=run_padded_cds,
           strategy=lambda tier: padded_cases(tier, federated=False),
@@ -1030,6 +1148,14 @@ CHECKS = [
           budget={'quick': 900, 'thorough': 18000}, time_share=1.5,
           doc='shuffle_repeat_batch_federated_data: full batches of genuine '
               'rows, per-pass conservation law, reproducible, non-trivial order'),
+    Check(name='shuffled_clients', run=run_shuffled_clients,
+          strategy=shuffled_clients_case, labels=shuffled_clients_labels,
+          nontrivial=lambda case, ls: shuffled_clients_view_size(case) >= 2 and case['passes'] >= 2,
+          budget={'quick': 1200, 'thorough': 24000}, time_share=1.5,
+          doc='FederatedData.shuffled_clients (in-memory, SQLite, subset wrapper, '
+              'slices): every pass of the endless stream is a permutation of the '
+              'view\'s clients with their own datasets for every buffer size '
+              '(shorter than, equal to, longer than the view), reproducible per seed'),
     Check(name='repeatable_iterator', run=run_repeatable,
           strategy=repeatable_cases, labels=repeatable_labels,
           nontrivial=lambda case, ls: case['n'] >= 1 and repeatable_passes(case) >= 2,
